@@ -151,6 +151,16 @@ class Folder:
                     raise Diverged("index out of bounds")
                 v = v[1][i]
                 continue
+            if e["k"] == "cindex" and isinstance(v, tuple) and v[0] == "bytes":
+                i = (len(v[1]) - e["off"]) if e.get("from_end") else e["off"]
+                if not (0 <= i < len(v[1])):
+                    raise Diverged("constant index out of bounds")
+                v = v[1][i]
+                continue
+            if e["k"] == "subslice" and isinstance(v, tuple) and v[0] == "bytes":
+                hi = (len(v[1]) - e["to"]) if e.get("from_end") else e["to"]
+                v = ("bytes", tuple(v[1][e["from"]:hi]))
+                continue
             raise Unsupported("projection %s" % e["k"])
         return v
 
@@ -235,6 +245,10 @@ class Folder:
             return self.hooks[key](a)
         if base in self.F.fns or key in self.F.fns:
             return self.call(key if key in self.F.fns else base, a)
+        if base in ("[T]::len", "core::slice::<impl [T]>::len") and isinstance(a[0], tuple) and a[0][0] == "bytes":
+            return len(a[0][1])
+        if base in ("[T]::is_empty",) and isinstance(a[0], tuple) and a[0][0] == "bytes":
+            return int(len(a[0][1]) == 0)
         if base == "char::is_ascii_digit":
             return int(0x30 <= a[0] <= 0x39)
         if base == "char::is_ascii_hexdigit":
